@@ -406,13 +406,17 @@ THREAD_PAIRS = [
 ]
 
 
-def thread_shard(w, acc, policy: str, ops, bound: int, coarse: bool, part: int, parts: int, only_choices=None, probe=None) -> None:
+def thread_shard(w, acc, policy: str, ops, bound: int, coarse: t.Any, part: int, parts: int, only_choices=None, probe=None) -> None:
     """two OS threads calling the SYNC API at once on one shared KeyCache, under the controlled scheduler of mc/threads.py"""
     import dpapi_ng
 
     from mc import threads
 
     probes = [op for op in OPS if op[0] != "load" and (op[1] == (ops[0][1] if len(ops[0]) > 1 else ops[1][1]) or op[0] == "prot")]
+    # granularity: False = every dpapi_ng source line, True = function entries, "client" = every line of _client.py only (where the cache
+    # and the four entry points live) - the last one keeps a preemption bound of 2 affordable
+    only_files = {"_client.py"} if coarse == "client" else None
+    coarse_flag = coarse is True
     state: t.Dict[str, t.Any] = {}
 
     def factory():
@@ -457,13 +461,13 @@ def thread_shard(w, acc, policy: str, ops, bound: int, coarse: bool, part: int, 
 
             ch = ex.Chooser(only_choices)
             bodies, cache = factory()
-            s = threads.Sched(ch, coarse)
+            s = threads.Sched(ch, coarse_flag, only_files)
             on(ch, s, s.run(bodies), cache)
             return
-        stt = threads.explore(factory, bound, on, coarse=coarse, root_filter=lambda i: i % parts == part)
+        stt = threads.explore(factory, bound, on, coarse=coarse_flag, root_filter=lambda i: i % parts == part, only_files=only_files)
     acc.stat_add("thread_schedules", stt["executions"])
     acc.stat_max("thread_choice_points_per_schedule", stt["max_depth"])
-    acc.sample({"threads": [list(o) for o in ops], "policy": policy, "preemption_bound": bound, "granularity": "function entry" if coarse else "source line", "schedules": stt["executions"]})
+    acc.sample({"threads": [list(o) for o in ops], "policy": policy, "preemption_bound": bound, "granularity": {True: "function entry", False: "source line", "client": "source lines of _client.py"}[coarse], "schedules": stt["executions"]})
 
 
 def shards(tier: str, seed: int):
@@ -475,8 +479,9 @@ def shards(tier: str, seed: int):
         for part in range(parts):
             out.append(["threads", "exact", pr, 1, coarse, part, parts])
     if tier == "thorough":
-        for part in range(16):
-            out.append(["threads", "exact", THREAD_PAIRS[0], 2, True, part, 16])
+        for pr in (THREAD_PAIRS[0],):
+            for part in range(16):
+                out.append(["threads", "exact", pr, 2, "client", part, 16])
     for pol in POLICIES:
         for i in range(len(OPS)):
             out.append(["seq", pol, i, 3])
